@@ -19,6 +19,7 @@ type Input struct {
 	Requests []string          // generated task names to ask for (besides the file's own)
 	Own      []string          // task names the harness could read out of the mutated file
 	Focus    []string          // tasks a field-aware mutation touched: the CLI channel asks for these first
+	Derived  []string          // requests derived from the input's own names and includes (star names, namespaces)
 	Assigns  []string
 	Insecure bool
 	Remote   bool // TASK_X_REMOTE_TASKFILES=1 for the CLI
@@ -34,6 +35,8 @@ func baseAux() map[string]string {
 		".env":             "DOTENV_A=1\nDOTENV_B='two words'\n",
 		"x.yml":            "version: '3'\ntasks: {x: echo x}\n",
 		"#inc.yml":         auxInc,
+		"onlydefault.yml":  "version: '3'\ntasks:\n  default:\n    desc: only\n    aliases: [od]\n    cmds: [echo only-default]\n",
+		"nodefault.yml":    "version: '3'\ntasks:\n  a: echo a\n  b: {cmds: [echo b], aliases: [a2]}\n",
 		"#x/Taskfile.yml":  "version: '3'\ntasks: {h: echo hash-dir}\n",
 	}
 }
@@ -107,6 +110,12 @@ func GenInput(seeds []Seed, i int) Input {
 						}
 						changed = true
 					}
+				case x < 5:
+					if reqs, ok := includeOptions(r, doc); ok {
+						in.Muts = append(in.Muts, MutIncOpts)
+						in.Derived = append(in.Derived, reqs...)
+						changed = true
+					}
 				case x < 15:
 					if m := structMutate(r, doc); m != "" {
 						in.Muts = append(in.Muts, m)
@@ -162,6 +171,29 @@ func GenInput(seeds []Seed, i int) Input {
 		in.Muts = []string{MutNone}
 	}
 	in.Own = ownTasks(in.Main)
+	// requests derived from every own name that contains '*'
+	nStar := 0
+	for _, n := range in.Own {
+		if sr := StarRequests(n); sr != nil && nStar < 4 {
+			nStar++
+			in.Derived = append(in.Derived, sr...)
+		}
+	}
+	if contains(in.Muts, "as-included-file") {
+		// the names live under the namespace i (and flattened under j)
+		for _, n := range ownTasks([]byte(in.Aux["inc.yml"])) {
+			if sr := StarRequests(n); sr != nil && nStar < 4 {
+				nStar++
+				for _, q := range sr {
+					in.Derived = append(in.Derived, "i:"+q, q)
+				}
+			}
+		}
+	}
+	if len(in.Derived) > 40 {
+		in.Derived = in.Derived[:40]
+	}
+	in.Requests = append(in.Requests, in.Derived...)
 	// requests over the C15 alphabet: instances and near misses of own names, random words
 	for _, n := range in.Own {
 		if len(in.Requests) >= 4 {
